@@ -270,6 +270,11 @@ def check_table(m, phase, fe, cfg, report):
                "table nodes %r and %r are %.3g apart (RK45's final micro-step onto the end of "
                "the range stored as a separate node): the spline is ill-conditioned at that "
                "end" % (T[k], T[k + 1], T[k + 1] - T[k]), dict(T=float(T[k])))
+    if len(T) > 1 and float(np.max(np.diff(T))) > dT * (1 + 1e-9) + 1e-12 * Ts:
+        k = int(np.argmax(np.diff(T)))
+        report("node-spacing-exceeds-dT", "table nodes %.10g and %.10g are %.4g apart, more "
+               "than the maximal step dT=%.4g" % (T[k], T[k + 1], T[k + 1] - T[k], dT), {})
+    n += 1
     # ---- every tabulated point --------------------------------------------------------
     beyond_min, beyond_other, beyond_trans = [], [], []
     worst = dict(grad=0.0, field=0.0, veff=0.0)
@@ -362,13 +367,16 @@ def check_table(m, phase, fe, cfg, report):
         on = T[(T > ph.Tlo) & (T < ph.Thi)]
         dist = min([abs(on.max() - ph.Thi) if bad_hi and len(on) else math.inf,
                     abs(on.min() - ph.Tlo) if bad_lo and len(on) else math.inf])
+        # The recorded finding, by mechanism (any model): ONE tracePhase call produced the hop
+        # and it happened AT a spinodal of the traced phase (the last node on the branch is
+        # within two steps of it).  How OFTEN it happens is bounded separately (hop_rate).
         key = "trace-hops-phase-at-spinodal"
         if history != "single":
             key = "hop-after-history"
-        elif m.nf != 1:
-            key = "hop-in-two-field-model"
         elif dist > 2 * dT + 3 * slack:
             key = "hop-away-from-spinodal"
+        elif cfg.get("nohop"):
+            key = "hop-where-recorded-tree-stops"
         report(key,
                "%d tabulated points lie beyond the spinodal of phase %s (a minimum only for "
                "%.8g < T < %.8g) and are genuine minima of ANOTHER phase, e.g. T=%.10g "
@@ -600,8 +608,14 @@ def hop_bucket(m, cfg):
                                           cfg["paranoid"], m.unit)
 
 
+def hop_class(m, cfg):
+    return "%s/paranoid=%s" % (cfg["model"]["model"], cfg["paranoid"])
+
+
 def note_hop(ctx, m, cfg, worst):
-    """hop rate per bucket goes into the evidence (how often the known event occurs)"""
+    """hop rate per bucket goes into the evidence (how often the known event occurs); the rate
+    per class (model family x paranoid) among the CANDIDATES - requests that reach past a
+    spinodal of the traced phase - is bounded at the end of the run (hop_rate_bound)"""
     cov = getattr(ctx, "cov", None)
     hopped = bool(worst.pop("hopped", 0.0)) if worst else False
     if cov is None:
@@ -609,13 +623,58 @@ def note_hop(ctx, m, cfg, worst):
     r = cov.setdefault("hop_rate", {}).setdefault(hop_bucket(m, cfg), [0, 0])
     r[1] += 1
     r[0] += int(hopped)
+    ph = m.phases.get(cfg.get("phase"))
+    if ph is not None and (cfg["TMin"] < ph.Tlo or cfg["TMax"] > ph.Thi) and \
+            not cfg.get("guess") and cfg.get("history", "single") == "single":
+        c = cov.setdefault("hop_class", {}).setdefault(hop_class(m, cfg), [0, 0])
+        c[1] += 1
+        c[0] += int(hopped)
     return hopped
+
+
+# Recorded rate of the known step-over-the-spinodal events among candidate requests, per class,
+# on the unchanged tree (HEAD b7aa83d, 2400 random cases): see HOP_P0.  A run whose count is
+# incompatible with TWICE that rate (binomial tail < 1e-3) reports hop-rate-above-recorded.
+HOP_P0 = {"quartic1/paranoid=False": 0.094, "quartic1/paranoid=True": 0.117,
+          "twofield/paranoid=False": 0.002, "twofield/paranoid=True": 0.002}
+
+
+def binom_tail(n, h, p):
+    """P(X >= h), X ~ Binomial(n, p)"""
+    return sum(math.comb(n, k) * p ** k * (1 - p) ** (n - k) for k in range(h, n + 1))
+
+
+def hop_rate_bound(ctx):
+    for cls, (h, n) in sorted(ctx.cov.get("hop_class", {}).items()):
+        p = min(0.95, 2 * HOP_P0.get(cls, 0.0) + 0.02)
+        tail = binom_tail(n, h, p) if n else 1.0
+        ctx.cov.setdefault("hop_class_tail", {})[cls] = [h, n, round(p, 3), float("%.3g" % tail)]
+        if tail < 1e-3:
+            ctx.fail_input("class %s: %d of %d candidate requests (past a spinodal) left their "
+                           "branch; recorded rate %.3f, bound %.3f, binomial tail %.2g" % (
+                               cls, h, n, HOP_P0.get(cls, 0.0), p, tail),
+                           dict(kind="rate", cls=cls, hops=h, candidates=n),
+                           key="hop-rate-above-recorded")
 
 
 def fd_noise(v, emin):
     """how far scipy's BFGS can be off because of rounding in its forward-difference gradient
     (absolute step 1.49e-8): 2 eps_mach |V| / step / curvature"""
     return 2 * 2.2e-16 * abs(v) / 1.4901161193847656e-08 / max(emin, 1e-300)
+
+
+def noop_displacement(m, cfg, T):
+    """how far findLocalMinimum (tol = the tracer's) moves the EXACT minimum at temperature T"""
+    from WallGo import Fields
+    ph = m.phases[cfg["phase"]] if "phase" in cfg else None
+    if ph is None or not (ph.Tlo < T < ph.Thi):
+        return 0.0
+    x0 = ph.loc(T)
+    try:
+        x, _ = m.pot.findLocalMinimum(Fields(x0), T, tol=cfg["rTol"])
+        return float(np.linalg.norm(np.asarray(x, dtype=float).ravel() - x0))
+    except Exception:
+        return 0.0
 
 
 MINIMISER_KEYS = ("gradient-not-zero", "interpolation-error", "interpolation-error-veff",
@@ -635,14 +694,32 @@ def classify(m, cfg, key, extra=None):
         return "minimiser-noise-limits-accuracy"
     if not cfg.get("guess") and m.unit >= 100 and cfg.get("paranoid") and \
             key in ("gradient-not-zero", "interpolation-error") and "err" in extra and \
-            extra["err"] <= extra["noise"]:
+            extra["err"] <= 1e-3 * extra["size"] and \
+            extra["err"] <= 3 * noop_displacement(m, cfg, extra["T"]):
         # same defect with an exact guess: in large units the paranoid re-minimisation moves
-        # the accurate ODE point by the rounding noise of its forward-difference gradient
+        # the accurate ODE point by the rounding noise of its forward-difference gradient -
+        # MEASURED: findLocalMinimum started at the exact minimum moves it by that much
         return "minimiser-noop-in-large-units"
-    if cfg.get("guess") and m.unit >= 100 and key in MINIMISER_KEYS:
+    if cfg.get("guess") and m.unit >= 100 and "err" in extra and \
+            key in ("gradient-not-zero", "interpolation-error") and \
+            extra["err"] <= 1.5 * abs(cfg["guess"]) * extra["size"]:
+        # (1.5: the Newton step over-estimates the distance by the anharmonicity)
         # recorded: in LARGE units scipy's absolute finite-difference step is rounding noise,
-        # findLocalMinimum does not move, the table inherits the error of the guess
+        # findLocalMinimum does not move, the table inherits (at most) the error of the guess
         return "minimiser-noop-in-large-units"
+    near = cfg.get("Tstart") is not None and "TMin" in cfg and min(
+        abs(cfg["Tstart"] - cfg["TMin"]), abs(cfg["TMax"] - cfg["Tstart"])) <= (
+        max(1.0, cfg.get("firstStep") or 0.0) * cfg["dT"] * (1 + 1e-9))
+    if key == "raises" and cfg.get("firstStep") is not None and near and \
+            "first_step" in str(extra.get("exc", "")):
+        # recorded: first_step = phaseTracerFirstStep*dT is not clamped to the distance to the
+        # end of the sweep
+        return "first-step-exceeds-distance-to-end"
+    if key in ("end-flagged-wrongly", "range-not-covered") and near and \
+            cfg.get("history", "single") == "single" and extra.get("end") == "lower":
+        # recorded: a downward sweep of ONE node is dropped (`len(TList) > 1`), the table
+        # starts at the start temperature and the lower end is flagged
+        return "one-node-sweep-dropped"
     if cfg.get("firstStep") is not None and key == "raises":
         # documented as a fraction of dT, handed to scipy as an absolute step
         return "first-step-not-in-units-of-dT"
@@ -653,13 +730,37 @@ def classify(m, cfg, key, extra=None):
 
 def emit(ctx, m, cfg, fails, kind, prefix=""):
     seen = set()
+    noop = any(classify(m, cfg, k, e) == "minimiser-noop-in-large-units" for k, _, e in fails)
     for key, what, extra in fails:
+        if noop and key == "interpolation-error-veff" and cfg.get("guess") and m.unit >= 100:
+            # the free energy at a position that carries the (bounded) error of the guess
+            key = "minimiser-noop-in-large-units"
         key = classify(m, cfg, key, extra)
         if key in seen:
             continue
         seen.add(key)
         ctx.fail_input("%s%s [%s]" % (prefix, what, json.dumps(cfg, sort_keys=True)),
                        dict(kind=kind, cfg=cfg, clause=key, extra=extra), key=key)
+
+
+def judge_refusal(ctx, m, cfg, phase, TMin, TMax, report):
+    """tracePhase refused with "Temperature range negative: decrease dT".  That is legitimate
+    only when the part of the request on which the phase exists is not longer than the two
+    2 dT margins (theorem tail_assert_is_margin_test); a valid request must not be refused."""
+    ph = m.phases[phase]
+    lo, hi = max(TMin, ph.Tlo, 0.0), min(TMax, ph.Thi)
+    room = hi - lo
+    cov = getattr(ctx, "cov", None)
+    if cov is not None:
+        r = cov.setdefault("refusals", {})
+        b = hop_bucket(m, dict(cfg, phase=phase))
+        r[b] = r.get(b, 0) + 1
+    ctx.count("trace_refused_dT", cfg)
+    if room > 4 * cfg["dT"] * (1 + 1e-9) + 2 * max(1e-4, 30 * cfg["rTol"]) * m.Tscale:
+        report("refused-valid-request",
+               "tracePhase refused (\"decrease dT\") a request on which phase %s exists over "
+               "%.6g = %.1f dT (start %.8g, request [%.8g, %.8g], dT %.4g)" % (
+                   phase, room, room / cfg["dT"], cfg["Tstart"], TMin, TMax, cfg["dT"]), {})
 
 
 def guarded(report, what, fn):
@@ -678,7 +779,7 @@ def guarded(report, what, fn):
         report("raises-linalgerror-at-spinodal", "%s raised %r instead of stopping at the "
                "spinodal" % (what, ex), {})
     except Exception as ex:
-        report("raises", "%s raised %r" % (what, ex), {})
+        report("raises", "%s raised %r" % (what, ex), dict(exc=repr(ex)))
     return False, None
 
 
@@ -692,8 +793,7 @@ def run_trace_case(ctx, cfg, tag):
         cfg["paranoid"], guess=cfg.get("guess", 0.0), defaults=cfg.get("defaults", False),
         firstStep=cfg.get("firstStep")))
     if not ok and fe == "refused":
-        ctx.count("trace_refused_dT", cfg)
-        return None
+        judge_refusal(ctx, m, cfg, cfg["phase"], cfg["TMin"], cfg["TMax"], report)
     worst = {}
     if ok:
         n, worst = check_table(m, cfg["phase"], fe, cfg, report)
@@ -730,11 +830,29 @@ def run_history_case(ctx, cfg):
                             lambda: fe.tracePhase(op[1], op[2], cfg["dT"], rTol=cfg["rTol"],
                                                   paranoid=cfg["paranoid"]))
             if not ok:
+                if r == "refused":
+                    judge_refusal(ctx, m, cfg, cfg["phase"], max(prev[0], op[1]),
+                                  min(prev[1], op[2]), report)
                 break
             # what this call was asked for, after the documented clamp by the previous range
             req = (max(prev[0], op[1]), min(prev[1], op[2]))
             ureq = (op[1], op[2])
             ntrace += 1
+            if ntrace == 1:
+                # the first call is a single trace like any other: judge it as such, and if
+                # its table already left the branch the later operations only inherit that
+                sub1 = dict(cfg, TMin=req[0], TMax=req[1], history="single")
+                n1, w1 = check_table(m, cfg["phase"], fe, sub1, report)
+                for _ in range(n1):
+                    ctx.count("direct_history")
+                if note_hop(ctx, m, sub1, w1):
+                    ctx.count("history_case", cfg, bucket="%s/first-trace-left-branch" %
+                              cfg["model"]["model"])
+                    emit(ctx, m, sub1, fails, "history")
+                    return
+                if fails:
+                    emit(ctx, m, sub1, fails, "history")
+                    return
         else:
             before = np.asarray(fe._interpolationPoints, dtype=float).copy()
             ok, r = guarded(report, "FreeEnergy(linspace(%g, %g, %d), False)" % tuple(op[1:]),
@@ -882,7 +1000,9 @@ def run_tc_case(ctx, cfg):
     report = make_reporter(fails)
     th = Thermodynamics(m.pot, cfg["Tn"], Fields(low.loc(cfg["Tn"])),
                         Fields(high.loc(cfg["Tn"])))
-    if cfg.get("pretraced"):
+    if cfg.get("fresh"):
+        pass                 # untouched object: window [0, inf]
+    elif cfg.get("pretraced"):
         # the usual path (WallGoManager): both phases traced beforehand over the window
         for fe in (th.freeEnergyHigh, th.freeEnergyLow):
             ok, _ = guarded(report, "tracePhase", lambda: fe.tracePhase(
@@ -904,24 +1024,41 @@ def run_tc_case(ctx, cfg):
         return orig(f, *a, **k)
     scipy.optimize.root_scalar = spy
     try:
-        with time_limit(2 * LIMIT):
+        with time_limit(15.0 if cfg.get("fresh") else 2 * LIMIT):
             try:
                 Tc = th.findCriticalTemperature(cfg["dT"], cfg["rTol"], cfg["paranoid"])
             finally:
                 scipy.optimize.root_scalar = orig
     except CaseTimeout:
+        if cfg.get("fresh"):
+            report("tc-on-fresh-object-never-returns", "findCriticalTemperature on a fresh "
+                   "Thermodynamics object (window [0, inf]) did not return within 15 s of CPU "
+                   "time: tracePhase integrates towards TMax = inf", {})
+            emit(ctx, m, cfg, fails, "tc", prefix="findCriticalTemperature: ")
+            return
         report("trace-does-not-terminate", "findCriticalTemperature did not return within "
                "%g s of CPU time" % (2 * LIMIT), {})
     except AssertionError as ex:
         if "decrease dT" in str(ex):
             ctx.count("tc_refused_dT", cfg)
-            return
-        report("tc-raises", "findCriticalTemperature raised %r" % ex, {})
+            for name in (m.high, m.low):
+                judge_refusal(ctx, m, dict(cfg, Tstart=cfg["Tn"]), name, cfg["Wmin"],
+                              cfg["Wmax"], report)
+        else:
+            report("tc-raises", "findCriticalTemperature raised %r" % ex, {})
     except np.linalg.LinAlgError as ex:
         report("raises-linalgerror-at-spinodal", "findCriticalTemperature raised %r instead of "
                "stopping the trace at the spinodal" % ex, {})
     except Exception as ex:
+        if cfg.get("fresh") and type(ex).__name__ == "WallGoError":
+            ctx.count("tc_fresh_refused_loudly", cfg)     # a loud refusal is acceptable
+            return
         report("tc-raises", "findCriticalTemperature raised %r" % ex, {})
+    if cfg.get("fresh"):
+        # (no finite window to judge tables against; what matters is that the call came back)
+        ctx.count("tc_fresh_returned", cfg)
+        emit(ctx, m, cfg, fails, "tc", prefix="findCriticalTemperature: ")
+        return
     for lo, hi, flo, fhi in seen_br:
         # conclusion of theorem tc_bracket_has_sign_change on the running code
         ctx.count("direct_tc_bracket")
@@ -1272,6 +1409,10 @@ def path_cfgs(rng, count, units=(1.0,)):
 # units) although documented in units of dT
 DIRECTED += [{"model": {"model": "quartic1", "D": 0.2, "E": 0.05, "lam": 0.1, "T0": 80.0, "g": 100.0, "unit": 0.001}, "phase": "broken", "Tstart": 0.07, "TMin": 0.06, "TMax": 0.08, "dT": 0.0005, "rTol": 1e-06, "paranoid": True, "firstStep": 0.5}]
 
+# f522542 a one-node downward sweep was dropped and the lower end flagged; 393a5e7 first_step
+# longer than the distance to the end raised in scipy (68788c6: DIRECTED_TC_FRESH)
+DIRECTED += [{"model": {"model": "quartic1", "D": 0.2, "E": 0.05, "lam": 0.1, "T0": 80.0, "g": 100.0, "unit": 1.0}, "phase": "broken", "Tstart": 70.001, "TMin": 70.0, "TMax": 80.0, "dT": 0.5, "rTol": 1e-06, "paranoid": True, "nearEnd": 0.002}, {"model": {"model": "quartic1", "D": 0.2, "E": 0.05, "lam": 0.1, "T0": 80.0, "g": 100.0, "unit": 1.0}, "phase": "broken", "Tstart": 70.3, "TMin": 70.0, "TMax": 80.0, "dT": 0.5, "rTol": 1e-06, "paranoid": True, "firstStep": 1.0, "nearEnd": 0.6}]
+
 # boundary values of the arguments (all fine on the unchanged tree); a start temperature
 # OUTSIDE [TMin, TMax] is refused loudly (ValueError from the spline) and is not generated
 _Q = {"model": "quartic1", "D": 0.2, "E": 0.05, "lam": 0.1, "T0": 80.0, "g": 100.0, "unit": 1.0}
@@ -1293,6 +1434,40 @@ DIRECTED += [
                 "unit": 1.0}, phase="sym", Tstart=80.862, TMin=80.04, TMax=88.0,
          dT=0.004 * 80.862, rTol=1e-8, paranoid=True),
 ]
+
+
+# requests past a spinodal on which the recorded tree stops at the spinodal and flags the end:
+# a hop on one of THESE inputs is not the recorded finding (key hop-where-recorded-tree-stops)
+DIRECTED_NOHOP = [
+ dict(model=_Q,phase="broken",Tstart=70.0,TMin=60.0,TMax=95.0,dT=0.5,rTol=1e-8,paranoid=True),
+ dict(model=_Q,phase="broken",Tstart=85.0,TMin=60.0,TMax=120.0,dT=0.3,rTol=1e-8,paranoid=True),
+ dict(model=_Q,phase="broken",Tstart=85.0,TMin=60.0,TMax=120.0,dT=0.05,rTol=1e-8,paranoid=False),
+ dict(model=_Q,phase="sym",Tstart=90.0,TMin=70.0,TMax=120.0,dT=0.3,rTol=1e-8,paranoid=True),
+ dict(model=_Q,phase="sym",Tstart=90.0,TMin=70.0,TMax=120.0,dT=0.05,rTol=1e-8,paranoid=False),
+ dict(model=dict(_Q, unit=1000.0),phase="broken",Tstart=85000.0,TMin=60000.0,TMax=120000.0,dT=300.0,rTol=1e-8,paranoid=False),
+ dict(model={"model":"twofield","theta":0.6,"unit":1.0},phase="B",Tstart=104.0,TMin=60.0,TMax=132.0,dT=0.48,rTol=1e-6,paranoid=True),
+ dict(model={"model":"twofield","theta":-1.0,"unit":1.0},phase="A",Tstart=55.37749241945383,TMin=33.2264954516723,TMax=134.75498483890766,dT=0.24,rTol=1e-6,paranoid=True),
+ dict(model={"model":"twofield","theta":0.3,"unit":1.0},phase="B",Tstart=104.0,TMin=60.0,TMax=132.0,dT=0.24,rTol=1e-8,paranoid=False),
+]
+
+
+def near_end_cfgs(rng, count, units=(1.0,)):
+    """start within a few solver steps of an end of the request (both ends, with and without
+    phaseTracerFirstStep), range inside the phase"""
+    out = []
+    for cfg in q1_cfgs(rng, count, units) + tf_cfgs(rng, count, units):
+        m = build_model(cfg["model"])
+        ph = m.phases[cfg["phase"]]
+        lo = max(ph.Tlo, 0.4 * m.Tscale)
+        hi = ph.Thi if math.isfinite(ph.Thi) else 2.0 * m.Tscale
+        cfg["TMin"], cfg["TMax"] = lo + 0.3 * (hi - lo), lo + 0.6 * (hi - lo)
+        off = rng.choice([1e-3, 0.6, 1.0, 2.0]) * cfg["dT"]
+        cfg["Tstart"] = cfg["TMin"] + off if rng.random() < 0.5 else cfg["TMax"] - off
+        cfg["nearEnd"] = off / cfg["dT"]
+        if rng.random() < 0.5:
+            cfg["firstStep"] = rng.choice([1.0, 0.5])
+        out.append(cfg)
+    return out
 
 
 def guess_cfgs(rng, count, units=(1.0,)):
@@ -1328,6 +1503,12 @@ def replay_cfg(ctx, cfg, tag):
         run_tc_case(ctx, cfg)
     else:
         run_trace_case(ctx, cfg, tag)
+
+
+# the documented on-demand use: findCriticalTemperature on a FRESH Thermodynamics object
+# (min/maxPossibleTemperature = [0, False], [inf, False]); it must return Tc or refuse loudly
+DIRECTED_TC_FRESH = {"model": dict(_Q), "Tn": 83.0, "dT": 0.5, "rTol": 1e-06, "paranoid": True,
+                     "fresh": True, "Wmin": 0.0, "Wmax": float("inf")}
 
 
 def run(ctx):
@@ -1400,6 +1581,23 @@ def run(ctx):
         except Exception as ex:
             ctx.log("history case raised", traceback.format_exc())
             ctx.broken.append("harness: history case raised %r" % ex)
+    for cfg in DIRECTED_NOHOP:
+        try:
+            run_trace_case(ctx, dict(cfg, nohop=True), "nohop")
+        except Exception as ex:
+            ctx.log("no-hop case raised", traceback.format_exc())
+            ctx.broken.append("harness: no-hop case raised %r" % ex)
+    for cfg in near_end_cfgs(rng, ctx.n(4, 40), units):
+        try:
+            run_trace_case(ctx, cfg, "nearend")
+        except Exception as ex:
+            ctx.log("near-end case raised", traceback.format_exc())
+            ctx.broken.append("harness: near-end case raised %r" % ex)
+    try:
+        run_tc_case(ctx, dict(DIRECTED_TC_FRESH))
+    except Exception as ex:
+        ctx.log("fresh Tc case raised", traceback.format_exc())
+        ctx.broken.append("harness: fresh Tc case raised %r" % ex)
     for cfg in path_cfgs(rng, ctx.n(4, 40), units):
         try:
             run_trace_case(ctx, cfg, "paths")
@@ -1428,6 +1626,7 @@ def run(ctx):
             ctx.log("Tc case raised", traceback.format_exc())
             ctx.broken.append("harness: Tc case raised %r" % ex)
     ctx.sample(dict(tc_case=tcs[0]))
+    hop_rate_bound(ctx)
     out, err = pr.communicate()
     for _ in range(4 * len(rows)):
         ctx.count("certified_oracle_eval")
